@@ -197,7 +197,11 @@ func genOH(t *rapid.T) OHCase {
 	n := rapid.IntRange(0, 12).Draw(t, "nmsgs")
 	// shape of the message sizes: "small" keeps a v1 header inside the part its own reader sees and a v2 header
 	// inside one 255-byte chunk; "any" is 0-200 bytes each
-	shape := rapid.SampledFrom([]string{"fit", "fit", "any"}).Draw(t, "shape")
+	shapes := []string{"fit", "fit", "fit", "fit", "fit", "any"} // v2: most headers inside the documented 255-byte chunk
+	if c.Version == 1 {
+		shapes = []string{"fit", "any"}
+	}
+	shape := rapid.SampledFrom(shapes).Draw(t, "shape")
 	budget := 255
 	if c.Version == 1 {
 		budget = 16 + 8*n // what the v1 reader sees of its own writer's output (known finding KF-C11-01)
